@@ -66,6 +66,8 @@ def _dy_agree(impl, model):
 def agree(case, impl, model):
     if case.startswith("ew1@"):
         return vlib.table_agree(impl, model, 1)
+    if case.startswith("ew2@"):
+        return vlib.table_agree(impl, model, 2)
     head = case.split(" ")[0]
     if head in ("ldexp", "frexp_ldexp"):
         return _dy_agree(impl, model)
@@ -151,5 +153,18 @@ def gen(seed, tier):
         out.append(f"{rng.choice(CLOSURES)} {arr(sh, es)}")
         op = rng.choice(UNARY)
         out.append(f"ew1@f64p s{hexs(op)} {arr(sh, [rng.randrange(20) for _ in range(prod(sh))])}")
+    # round / around: values against an array of decimal places (both stretched); signbit on the float pool
+    from C03 import compatible_partner
+    for sh in list(shapes(3, 3)):
+        n = prod(sh)
+        for op in ("round", "around"):
+            for ty in ("f64p", "f32p", "i32"):
+                es = [rng.randrange(20) for _ in range(n)] if ty.endswith("p") else [rng.randint(-99, 99) for _ in range(n)]
+                d1 = [rng.randint(-2, 3)]
+                out.append(f"ew2@{ty} s{hexs(op)} {arr(sh, es)} {arr([1], d1)} z2 l")
+                ds = compatible_partner(rng, sh)
+                out.append(f"ew2@{ty} s{hexs(op)} {arr(sh, es)} {arr(ds, [rng.randint(-2, 3) for _ in range(prod(ds))])} z2 l")
+        for ty in ("f64p", "f32p"):
+            out.append(f"ew1@{ty} s{hexs('signbit')} {arr(sh, [rng.randrange(20) for _ in range(n)])}")
     out += dyadic_cases(rng, tier)
     return out
